@@ -34,7 +34,7 @@ META = {
              "structurally identical to the one obtained from the canonical spelling loaded first in a fresh process.  The pure-Python XPath "
              "prefixing is additionally checked against a regular-expression reference for every path literal the library uses.",
     "trusted": "lxml / libxml2; the structural snapshot; the renderings are produced with plain lxml (checks/xmlvar.py)",
-    "bounds": {"quick": {"templates": TEMPLATES + ["T4", "JPSS (stride 101)"], "product": "7 conventions (prefix xtce / q7 / Unit / P / SequenceContainer, default namespace, none) x (3 + #gaps) lexical variants x 31 histories, stride 11"},
+    "bounds": {"quick": {"templates": TEMPLATES + ["T4", "JPSS (stride 101)"], "product": "9 conventions (prefix xtce / q7 / Unit / P / SequenceContainer / xtce-1.2 / omg.xtce_v2, default namespace, none) x (3 + #gaps) lexical variants x 31 histories, stride 11"},
                "thorough": {"templates": TEMPLATES + ["T4", "T5", "JPSS"], "product": "complete for T1, T2, T6; stride 5 for the others"}},
     "stubs": ["none (lxml runs natively; the executor only picks configuration points)"],
     "outside_claim": ["comments / whitespace INSIDE text-carrying leaf elements", "processing instructions, CDATA, entity tricks", "histories longer than two loads",
